@@ -222,3 +222,21 @@ package sam
 //@   ensures result.1 == nil || localErr(result.1)
 //@   loop 1
 //@     invariant 0-1 <= colon1 && colon1 < i && colon2 == 0-1 && i <= len(tag)
+
+// ---- writer ----
+
+//@ func tagsToText
+//@   props C03 C07
+//@   trusted assumed: returns some slice of strings and has no other effect (its callee tagToText uses a type switch, outside the verified subset; the tag text codec is served by the bounded stand-in)
+
+//@ func SAM.Write
+//@   props C03 C07
+//@   requires !w.failed
+//@   ensures result == nil <==> !w.failed
+//@   ensures result == nil || ioErr(result)
+//@   loop 1
+//@     invariant s != nil && !w.failed
+
+//@ func SAM.MarshalText
+//@   props C03
+//@   ensures result.1 == nil
